@@ -83,8 +83,13 @@ def gen_one(rng, tier, scale=False):
             if rng.random() < 0.3:
                 # ... and the map holding the shadowed handle is cleared
                 ops.append(['clear', key.rpartition('/')[0] or None])
-        elif k < 0.88:
+        elif k < 0.86:
             ops.append(['reassign', gen_key(rng, alphabet, 3)])
+        elif k < 0.88:
+            # an assignment the map refuses (the value is neither a handle
+            # nor a map): nothing that was reachable may change
+            ops.append(['bad_set', gen_key(rng, alphabet, 4),
+                        rng.choice([42, 'text', None])])
         elif k < 0.93:
             ops.append(['set_via', gen_key(rng, alphabet, 2),
                         gen_key(rng, alphabet, 3), gen_value(rng, alphabet)])
@@ -126,6 +131,16 @@ def run_case(case):
                 if not drv.reassign(op[1]):
                     res.stats['ops_skipped'] += 1
                     continue
+            elif name == 'bad_set':
+                try:
+                    drv.root[op[1]] = op[2]
+                except (AssertionError, TypeError, ValueError,
+                        AttributeError):
+                    res.stats['refused_assignments'] += 1
+                    drv.flags.add('refused-assignment')
+                else:
+                    res.div(at, 'bad-value-accepted', f'm[{op[1]!r}] = '
+                            f'{op[2]!r} was accepted', 'refused', 'accepted')
             elif name == 'set_via':
                 if not drv.set_via(op[1], op[2], op[3]):
                     res.stats['ops_skipped'] += 1
